@@ -137,6 +137,71 @@ func HarnessC13(split, conns int) {
 	verifrt.Cover("end", true)
 }
 
+// HarnessC13Seq: n requests one after the other on one client connection, EACH redirected `hops` times
+// (B -> C, then C -> A when hops is 2) with a solver-chosen kind per redirect. The request objects are
+// recycled from one request to the next, so whatever a request leaves behind (counters, flags, buffers)
+// meets the next one: every one of the n must be followed transparently - the named node receives
+// [ASKING +] the request, the client sees nothing but the final node's reply, exactly once, in order.
+func HarnessC13Seq(n, hops int) {
+	o := core.VerifDefaultOptions()
+	w, _ := verifWorld2(o)
+	w.AddPool("C:1", false)
+	c := w.NewClient("10.0.0.1:5000")
+	seen := map[string]int{}
+	var wantClient []byte
+	for i := 0; i < n; i++ {
+		k := []byte{'{', 'a', '}', byte('0' + i), 'x'} // slot 15495 -> B
+		if i == n-1 {
+			k[4] = verifrt.Byte("key")
+		}
+		req := core.VerifEncode([]byte("get"), k)
+		w.Feed(c, req)
+		w.RunTasks()
+		cur := "B:1"
+		verifrt.Assert(len(w.ByAddr[cur]) == 1, "request_sent_to_owner")
+		verifrt.Assert(verifBytesEq(w.Sent(w.ByAddr[cur][0])[seen[cur]:], req), "owner_receives_the_request")
+		seen[cur] = len(w.Sent(w.ByAddr[cur][0]))
+		asked := false
+		for h := 0; h < hops; h++ {
+			next := []string{"C:1", "A:1"}[h]
+			ask := verifrt.Choice("ask", 2) == 1
+			kind := "-MOVED"
+			if ask {
+				kind = "-ASK"
+			}
+			var rsp []byte
+			if asked {
+				rsp = append(rsp, "+OK\r\n"...) // the reply to the ASKING that preceded the request on this node
+			}
+			rsp = append(rsp, (kind + " 15495 " + next + "\r\n")...)
+			w.Feed(w.ByAddr[cur][0], rsp)
+			w.RunTasks()
+			verifrt.Assert(len(w.ByAddr[next]) == 1, "request_resent_to_named_node")
+			want := []byte{}
+			if ask {
+				want = append(want, "*1\r\n$6\r\nASKING\r\n"...)
+			}
+			want = append(want, req...)
+			verifrt.Assert(verifBytesEq(w.Sent(w.ByAddr[next][0])[seen[next]:], want), "target_receives_asking_then_request_once")
+			seen[next] = len(w.Sent(w.ByAddr[next][0]))
+			verifrt.Assert(verifBytesEq(w.Sent(c), wantClient), "redirect_not_visible_to_client")
+			cur, asked = next, ask
+		}
+		var rsp []byte
+		if asked {
+			rsp = append(rsp, "+OK\r\n"...)
+		}
+		rsp = append(rsp, bulk(k)...)
+		w.Feed(w.ByAddr[cur][0], rsp)
+		wantClient = append(wantClient, bulk(k)...)
+		verifrt.Assert(verifBytesEq(w.Sent(c), wantClient), "client_receives_exactly_the_final_reply")
+		verifrt.Assert(c.Opened() && !w.Shutdown, "client_and_proxy_stay_up")
+	}
+	verifrt.ObserveBytes("client", w.Sent(c))
+	verifrt.Cover("end", true)
+}
+
 func init() {
+	verifrt.Register("HarnessC13Seq", func(p []int64) { HarnessC13Seq(int(p[0]), int(p[1])) })
 	verifrt.Register("HarnessC13", func(p []int64) { HarnessC13(int(p[0]), int(p[1])) })
 }
